@@ -11,15 +11,17 @@ from ..models import Svc
 
 PROPERTY_ID = "C16"
 LEVEL = "exploration"
-RULE = ("Each generated traffic history (10..40 events over ~12 s: QM/QU/mixed/probe/legacy-source/TC queries for the host's "
+RULE = ("Each generated traffic history (10..40 events over ~12 s: QM/QU/mixed/probe/legacy-source/TC/TC+QU queries for the host's "
         "services, and responses with new/refreshed/goodbye/flush records for a browsed type; host with 1..2 services, a browser "
-        "and a record-update listener; both socket layouts) is executed twice in virtual time with the same library RNG seed: "
-        "once as is, once with EVERY datagram delivered to the host (injected ones and its own looped-back multicasts) delivered "
-        "a second time immediately on the same socket, the RNG being switched to a side stream while the copy is processed. "
-        "Oracle: the sequence of (time, destination, bytes) transmitted and the sequences of record-update and browser "
+        "and a record-update listener; both socket layouts) is executed up to four times in virtual time with the same library RNG "
+        "seed: as is; with every datagram WITHOUT a QU question delivered a second time immediately on the same socket; "
+        "additionally with truncated (TC) queries containing a QU question duplicated; and with EVERY datagram duplicated "
+        "(injected ones and the host's own looped-back multicasts) - the RNG being switched to a side stream while a copy is "
+        "processed. Oracle: the sequence of (time, destination, bytes) transmitted and the sequences of record-update and browser "
         "callbacks (time, arguments) must be identical, except that a unicast reply emitted while the copy of a datagram with "
-        "a QU question is processed may appear. Only the first divergence of a history is reported and classified (extra "
-        "multicast / extra unicast / missing / shifted / callback). Distinct = (datagram kind, QU?, outcome) classes.")
+        "a QU question is processed may appear. Only the first divergence of a history is reported, classified (extra "
+        "multicast / extra unicast / missing / shifted / callback) and attributed to the first run that shows it "
+        "(non_qu_duplicate / tc_qu_duplicate / qu_copy_processed). Distinct = (datagram kind, QU?, outcome) classes.")
 ASSUMPTIONS = ["the duplicate is delivered in the same loop callback as the original (both sit in the socket buffer)"]
 
 T1 = "_http._tcp.local."
@@ -52,16 +54,17 @@ def gen_history(rng: random.Random) -> Dict[str, Any]:
     t = rng.choice([0.0, 600.0, 1500.0])
     for i in range(rng.choice([10, 20, 40])):
         s = rng.choice(svcs)
-        kind = rng.choice(["qm", "qm", "qu", "mixed", "probe", "legacy", "legacy-qu", "tc", "resp-new", "resp-refresh", "resp-goodbye", "resp-flush", "qm-known"])
+        kind = rng.choice(["qm", "qm", "qu", "mixed", "probe", "legacy", "legacy-qu", "tc", "tc-qu", "resp-new", "resp-refresh", "resp-goodbye", "resp-flush", "qm-known"])
         src = ("10.0.0.%d" % rng.choice([60, 61]), 5353)
-        if kind in ("qm", "qu", "mixed", "legacy", "legacy-qu", "tc", "qm-known"):
+        if kind in ("qm", "qu", "mixed", "legacy", "legacy-qu", "tc", "tc-qu", "qm-known"):
             qs = [(rng.choice([s.type, s.name, s.server]), rng.choice([12, 33, 16, 1, 255]),
-                   {"qm": False, "qu": True, "mixed": rng.random() < 0.5, "legacy": False, "legacy-qu": True, "tc": False, "qm-known": False}[kind])
+                   {"qm": False, "qu": True, "mixed": rng.random() < 0.5, "legacy": False, "legacy-qu": True, "tc": False, "tc-qu": True, "qm-known": False}[kind])
                   for _ in range(rng.choice([1, 1, 2, 3]))]
             if kind == "mixed":
                 qs[0] = (qs[0][0], qs[0][1], True)
-            known = [(s.ptr(), s.other_ttl)] if kind == "qm-known" else []
-            data = R.build_query(qs, known, id_=rng.randrange(65536), tc=(kind == "tc"))
+            # (tc-qu: the first query of a browser with many known answers - truncated and QU at once)
+            known = [(s.ptr(), s.other_ttl)] if kind == "qm-known" or (kind == "tc-qu" and rng.random() < 0.5) else []
+            data = R.build_query(qs, known, id_=rng.randrange(65536), tc=kind.startswith("tc"))
             if kind.startswith("legacy"):
                 src = (src[0], rng.randrange(2000, 60000))
             has_qu = any(q[2] for q in qs)
@@ -130,7 +133,7 @@ def execute(h: Dict[str, Any], lib_seed: int, duplicate: str) -> Dict[str, Any]:
             out["mark"] = len(sim.net.trace)
             sim.net.dup_hook = dup_hook
             sim.net.duplicate_all = duplicate != "none"
-            sim.net.duplicate_filter = (lambda d: not has_qu(d)) if duplicate == "non-qu" else None
+            sim.net.duplicate_filter = {"non-qu": (lambda d: not has_qu(d)), "non-qu+tc": (lambda d: (not has_qu(d)) or is_tc_query(d))}.get(duplicate)
             for ev in h["events"]:
                 sim.net.inject(host, ev["data"], ev["src"], delay_ms=ev["t"], multicast=True)
             await sim.sleep_ms(h["events"][-1]["t"] + 3000)
@@ -149,6 +152,10 @@ def execute(h: Dict[str, Any], lib_seed: int, duplicate: str) -> Dict[str, Any]:
         return {"tx": tx, "callbacks": {"browser": [c for c in cbs if c[1] in ("add", "remove", "update")],
                                         "record_listener": [c for c in cbs if c[1] in ("records", "complete")]},
                 "escapes": list(sim.net.escapes)}
+
+
+def is_tc_query(data: bytes) -> bool:
+    return len(data) >= 12 and not (data[2] & 0x80) and bool(data[2] & 0x02)
 
 
 def has_qu(data: bytes) -> bool:
@@ -178,11 +185,12 @@ def run_history(res: Result, seed: int, h: Optional[Dict[str, Any]] = None) -> N
     try:
         ref = execute(h, seed & 0xFFFF, "none")
         dup_nonqu = execute(h, seed & 0xFFFF, "non-qu")
+        dup_tc = execute(h, seed & 0xFFFF, "non-qu+tc") if any(e["has_qu"] and is_tc_query(e["data"]) for e in h["events"]) else dup_nonqu
         dup_all = execute(h, seed & 0xFFFF, "all")
     except Exception as e:
         viol("c16.trace_equal", "exception", "exception: %r\n%s" % (e, tb()), exc_type=type(e).__name__)
         return
-    for run, name in ((ref, "reference"), (dup_nonqu, "duplicated(non-QU)"), (dup_all, "duplicated(all)")):
+    for run, name in ((ref, "reference"), (dup_nonqu, "duplicated(non-QU)"), (dup_tc, "duplicated(non-QU and truncated QU)"), (dup_all, "duplicated(all)")):
         if run["escapes"]:
             viol("c16.trace_equal", "loop_exception", ("%s run: %r" % (name, run["escapes"][0]))[:600])
             return
@@ -190,7 +198,11 @@ def run_history(res: Result, seed: int, h: Optional[Dict[str, Any]] = None) -> N
     allowed_extra_unicast = 0
     # run B (no QU copies) must be *identical*; run C may add unicast replies while a QU copy is processed. A divergence that
     # appears only in run C is caused by the processing of the copy of a datagram with a QU question (cause=qu_copy_processed).
-    for dup, cause in ((dup_nonqu, "non_qu_duplicate"), (dup_all, "qu_copy_processed")):
+    # run B' additionally duplicates truncated queries that contain a QU question: the listener lets the copy through (QU) but
+    # the deferral code recognises it as the packet it already holds, so B' must be identical too (cause=tc_qu_duplicate).
+    for dup, cause in ((dup_nonqu, "non_qu_duplicate"), (dup_tc, "tc_qu_duplicate"), (dup_all, "qu_copy_processed")):
+        if dup is dup_nonqu and cause == "tc_qu_duplicate":
+            continue
         res.mon("c16.trace_equal")
         a, b = ref["tx"], dup["tx"]
         i = j = 0
@@ -201,7 +213,7 @@ def run_history(res: Result, seed: int, h: Optional[Dict[str, Any]] = None) -> N
                 i += 1
                 j += 1
                 continue
-            if cause == "qu_copy_processed" and y is not None and not y["mcast"] and y["ctx"] and y["ctx"]["copy"] and has_qu(y["ctx"]["data"]):
+            if cause in ("qu_copy_processed", "tc_qu_duplicate") and y is not None and not y["mcast"] and y["ctx"] and y["ctx"]["copy"] and has_qu(y["ctx"]["data"]):
                 allowed_extra_unicast += 1
                 j += 1
                 continue
